@@ -141,7 +141,7 @@ def r2_create_sites(chk, prog):
             chk.require(ok_parse, "R2", f, "stored-value-is-parsed-document:%s" % (ctx.const_str_of(t.args[1]) or "delegated"),
                         "a value that is not a freshly parsed document is persisted: %s" % sorted(map(repr, val)), ctx.site(bb))
             edges = []
-            for vb, vt in ctx.calls(ROOT_VERIFY, DELEG_VERIFY):
+            for vb, vt in ctx.calls(ROOT_VERIFY, DELEG_VERIFY, wrappers=True):
                 if ctx.origins.of_operand(vt.args[1]) == val:
                     edges.extend(ctx.track_call(vb).pos_edges(0))
             p = ctx.cfg.witness_path([bb], edges)
